@@ -41,7 +41,7 @@ def gen_case(rng, cid, mode):
     sc = scripts.gen_script(rng, maxlen=rng.randint(5, 40), maxdepth=4, p_call=0.3, reads=True,
                             fns=rng.choice(["fg", "f", "fgh"]))
     fns = P.script_fns(sc)
-    var = rng.choice(VARS)
+    var = rng.choice(VARS + ["c"] * 3)
     hs = []
     order = rng.sample(["ovr", "obs", "ovr2", "obs2"], rng.randint(2, 4))
     if "ovr" not in order:
@@ -56,7 +56,20 @@ def gen_case(rng, cid, mode):
                 h["silent"] = True
             hs.append(W.norm_handler(h))
         else:
-            hs.append(W.norm_handler({"kind": "imm", "sel": s}))
+            # an observer that looks at the same variable through its tag only (c:@T next to an override of c): which bindings
+            # are instrumented must be the union of what the active probes need
+            twin = [P.qualified(h["sel"]) for h in hs if h.get("ovr")] if rng.random() < 0.5 else []
+            twin = [q for q in twin if q is not None]
+            h = W.norm_handler({"kind": "imm", "sel": rng.choice(twin) if twin else s})
+            hs.insert(rng.randrange(len(hs) + 1) if twin else len(hs), h)      # activated before or after the override
+    if var in ("c", "p"):
+        sc = P.plain_next_to_annotated(rng, sc)
+    if mode == "probe" and var == "c" and rng.random() < 0.5:
+        # the pair alone: an override of c and, activated after it, an observer of the tagged bindings of c in the same function
+        o = next(h for h in hs if h["ovr"]["k"] != "none")
+        q = P.qualified(o["sel"])
+        if q is not None:
+            hs = [o, W.norm_handler({"kind": "imm", "sel": q})]
     if mode == "api":
         # Overlay.tweak takes one {selector: value} dict: the constant overrides are installed together, after the others
         consts = [h for h in hs if h["ovr"]["k"] == "const"]
